@@ -347,3 +347,26 @@ pub fn id_history_dfs(
     };
     rec(&seed.arena, &ctx, &mut Vec::new(), &mut Vec::new(), stats)
 }
+
+/// A configuration-independent digest of the deep history: the textual form of every id issued
+/// over `cycles` cycles of (new_node; remove) and the cycles at which the arena grew (C17).
+pub fn id_digest(cycles: usize) -> (u64, Vec<usize>) {
+    use std::hash::{Hash, Hasher};
+    let mut h = std::collections::hash_map::DefaultHasher::new();
+    let mut grew = Vec::new();
+    let mut arena: Arena<Payload> = Arena::new();
+    let _ = guarded(|| {
+        for c in 0..cycles {
+            let before = arena.count();
+            let id = arena.new_node(Payload(0));
+            if arena.count() != before && c > 0 {
+                grew.push(c);
+            }
+            fmt_id(Some(id)).hash(&mut h);
+            id.is_removed(&arena).hash(&mut h);
+            id.remove(&mut arena);
+            id.is_removed(&arena).hash(&mut h);
+        }
+    });
+    (h.finish(), grew)
+}
